@@ -73,14 +73,14 @@ OUTER = ["", "T", "H"]
 
 
 def cases(tier, seed):
-    ns = (4,) if tier == "quick" else (4, 6)
+    ns = (4,) if tier == "quick" else (4, 6, 8)
     out = []
     for n in ns:
         for field in ("real", "complex", "real-complexL", "complex-realL"):
             for kind in ("orth", "orth_same", "biorth"):
                 if field in ("real-complexL", "complex-realL") and kind != "biorth":
                     continue
-                for rank in (1, 2):
+                for rank in ((1, 2) if tier == "quick" else (1, 2, 3)):
                     chains = [()] + [(a,) for a in UNARY] + list(itertools.product(UNARY, repeat=2))
                     if tier != "quick":
                         chains += list(itertools.product(UNARY, repeat=3))
